@@ -768,8 +768,9 @@ def gen(tier, rng):
 
 
 def nontrivial(case_line, model_out):
-    """the view was constructed (or a constructor rejected its arguments with a payload / panic) and,
-    when constructed, at least one probe is present and at least one is absent"""
+    """the view was constructed and observed (shape, layout, probes, iteration, memory-order walk,
+    writes + leaf dump), or some constructor of the term rejected its arguments (error payload /
+    panic); every generated case is one of the two"""
     if model_out.startswith("(0 ("):
         return True
     return model_out.startswith("(1") or model_out.startswith("(2")
